@@ -329,9 +329,50 @@ def run(facts, rep, tier):
     rule_r1b(facts, rep)
     rule_r2(facts, rep)
     rule_r3(facts, rep)
+    rep.rule("C06-R3b", "= C04-R3 for the title cache: the single-key update refreshes keys_to_ref_text on every path (insert on Some, remove on None, no early return before it), so a link to a "
+             "note that lost its heading is not re-titled with the old one.")
+    from . import c04
+    from .c01 import _Only
+    c04.rule_r3(facts, _MultiOnly(rep, ("cache:keys_to_ref_text", "no-early-return-before-cache-refresh")), "C06-R3b")
     c05.rule_r2(facts, rep, "C06-R4")
     rep.rule("C06-R4b", "= C15-R3: the directory a block reference is resolved against comes from Key::parent, which must use the same path algebra as the url reader/writer.")
     from . import c15
     c15.rule_r3(facts, rep, "C06-R4b")
     rep.rule("C06-R5", "Links keep their kind: both link printers choose the autolink form only under `!is_ref && text == url`.")
     rule_r5(facts, rep)
+
+
+class _MultiOnly:
+    """Forwards only the instances whose key contains one of the markers."""
+
+    def __init__(self, rep, markers):
+        self.rep = rep
+        self.markers = markers
+        self.stats = rep.stats
+
+    def _keep(self, key):
+        return any(m in key for m in self.markers)
+
+    def ok(self, rule, key, detail="", loc=None, nontrivial=True):
+        if self._keep(key):
+            self.rep.ok(rule, key, detail, loc, nontrivial)
+
+    def violation(self, rule, key, detail, loc=None):
+        if self._keep(key):
+            self.rep.violation(rule, key, detail, loc)
+
+    def undecided(self, rule, key, detail, loc=None):
+        if self._keep(key):
+            self.rep.undecided(rule, key, detail, loc)
+
+    def floor(self, *a, **k):
+        pass
+
+    def anchor_missing(self, rule, what):
+        self.rep.anchor_missing(rule, what)
+
+    def saw_fn(self, fn):
+        self.rep.saw_fn(fn)
+
+    def rule(self, rid, text):
+        pass
